@@ -446,6 +446,46 @@ def r5(ctx):
         ctx.check(P, rule, "missing signature is an error", vals and all(is_agg(t, "Err") for t in vals), "None => Err", "the None-signature arm can return a non-error")
 
 
+def r6b(ctx):
+    """what verify_tree authenticates is what verify_and_apply_proof stores: when a proof carries a
+    block section, normalize_data must hand verify_tree that block (value, leaf index, nodes) —
+    whatever else the proof carries.  A hash section may stand in only when there is no block."""
+    rule = "C04.R6"
+    ND = "tree::merkle_tree::normalize_data"
+    fn = ctx.fn(ND)
+    if not need(ctx, P, rule, ND, fn):
+        return
+    tests = list(option_tests(fn, lambda v: strip(v) == ("param", "block")))
+    if not need(ctx, P, rule, "normalize_data: test of `block`", tests):
+        return
+    none_edges = [t_[3] for t_ in tests if t_[3] is not None]
+    alts = []
+    for d in fn.body.defs.get(0, []):
+        kind, bi, si, place, payload = d
+        if bi not in fn.succ or place["p"]:
+            continue
+        if kind == "assign" and payload["k"] == "use":
+            gv = guarded_values(fn, payload["op"])
+            alts += [(t_, db if db is not None else bi) for t_, db in gv] or [(fn.origin_rvalue(payload, bi, si), bi)]
+        elif kind == "assign":
+            alts.append((fn.origin_rvalue(payload, bi, si), bi))
+        else:
+            alts.append((fn.origin_call(bi, payload), bi))
+    flat = []
+    for t_, db in alts:
+        for m in (t_[1] if t_[0] == "join" else (t_,)):
+            flat.append((m, db))
+    from_block = [(m, db) for m, db in flat if "some(block)" in term_str(m)]
+    other = [(m, db) for m, db in flat if "some(block)" not in term_str(m)]
+    good_b = bool(from_block) and all(is_agg(m, "Some") and "some(block).value" in term_str(agg_field(agg_field(m, "0"), "value")) and "some(block).index" in term_str(agg_field(agg_field(m, "0"), "index")) and "some(block).nodes" in term_str(agg_field(agg_field(m, "0"), "nodes")) for m, _ in from_block)
+    ctx.check(P, rule, "a block section is normalised to (its value, leaf 2 * index, its nodes)", good_b, "Some(NormalizedData{value: Some(block.value), index: block.index * 2, nodes: block.nodes})",
+              "normalize_data builds %s from the block section" % [term_str(m)[:90] for m, _ in from_block], key="C04|C04.R6|normalize_data|block fields")
+    stray = [(m, db) for m, db in other if not any(fn.dominates(e, db) for e in none_edges)]
+    ctx.check(P, rule, "a hash section (or nothing) is used only when the proof has no block", bool(other) and not stray, "every non-block result is built under `block` == None",
+              "normalize_data can return %s although the proof carries a block: verify_tree then authenticates that instead of the block, whose bytes verify_and_apply_proof stores all the same" % [term_str(m)[:70] for m, _ in stray],
+              [loc(fn, db) for _, db in stray], key="C04|C04.R6|normalize_data|block precedence")
+
+
 def r6(ctx):
     rule = "C04.R6"
     fa = ctx.fn(VERIFY_TREE)
@@ -486,7 +526,7 @@ def r6(ctx):
                 ctx.check(P, rule, "%s stores the computed hash" % nm, term_has_call(h, HASH_DATA if f is fb else HASH_PARENT) is not None, "hash from Hash::*", "%s stores hash %s" % (nm, term_str(h)[:80]))
 
 
-RULES = [r1, r1b, r2, r3, r3b, r3c, r4, r5, r6]
+RULES = [r1, r1b, r2, r3, r3b, r3c, r4, r5, r6, r6b]
 
 EXPLANATION = ("C04 (forged proofs never change a replica): decides the gate chain as dominance facts — fork and commitable gates and a ?-checked "
                "verify_proof dominate every storage/oplog/bitfield/tree/header/event effect of verify_and_apply_proof and the applied changeset is the verified one (R1); "
@@ -494,7 +534,7 @@ EXPLANATION = ("C04 (forged proofs never change a replica): decides the gate cha
                "the changeset is released only with no instruction pending, and NodeQueue::shift — the only place that ties a proof node to a tree position — hands a node out only under node.index == index (R3); every Ok of verify_upgrade/verify_and_set_signature is dominated by a ?-checked "
                "signature verification over signable(hash(roots), length, fork) with no root appended afterwards (R4); crypto::verify returns Ok only on "
                "verify(..).is_ok() and Err on a missing signature (R5); verify_tree recomputes the leaf from the received value and every parent from the "
-               "running root and the shifted sibling (R6).")
+               "running root and the shifted sibling, and normalize_data hands it the block section whenever the proof has one — a hash section stands in only without a block (R6).")
 NOT_DECIDED = ("collision resistance / signature soundness of the libraries; flat-tree index arithmetic selecting which nodes are combined; that a refused "
                "proof leaves every observation unchanged beyond 'no effect site is reachable'; completion of honest replication afterwards.")
 ASSUMPTIONS = ["ed25519-dalek and blake2 are correct", "flat_tree iterator arithmetic is correct"]
